@@ -413,3 +413,64 @@ func TestCondWaitSignalBroadcast(t *testing.T) {
 		t.Fatalf("signal-before-wait must be able to deadlock: %s", keys(got))
 	}
 }
+
+// A thread that is about to receive on an unbuffered channel is not yet a parked receiver: a
+// non-blocking send scheduled in that window takes its default arm.  The window exists only in
+// Arrive mode, which Explore must switch on by itself when it sees the non-blocking send.
+func TestArriveWindowForNonBlockingSend(t *testing.T) {
+	body := func() string {
+		ch := make(chan int)
+		var ready Cell[int]
+		var got Cell[string]
+		w := Go("receiver", func() {
+			ready.Set(1)
+			Recv(ch)
+		})
+		Block("ready", func() bool { return ready.Peek() == 1 })
+		ready.Get()
+		if i, _, _ := Select(true, SendCase(ch, 1)); i == 0 {
+			got.Set("handed-over")
+			Join(w)
+		} else {
+			got.Set("dropped")
+		}
+		return got.Get()
+	}
+	for _, merge := range []bool{false, true} {
+		out, st := outcomes(t, 1000, merge, body)
+		if keys(out) != "dropped,handed-over" || !st.ArriveMode {
+			t.Fatalf("merge=%v: outcomes %s arrive=%v, want both and the mode switched on", merge, keys(out), st.ArriveMode)
+		}
+		// and a violation recorded in that mode replays from its own choice list
+		var last string
+		st2 := Explore(Options{Bound: 1000, Merge: merge}, func() { last = body() }, func(x *Execution) (string, []string) {
+			if last == "dropped" {
+				return last, []string{"dropped: receiver never served"}
+			}
+			return "ok", nil
+		})
+		if len(st2.Violations) == 0 || st2.Violations[0].Choices[0] != ArriveMarker {
+			t.Fatalf("expected a violation carrying the arrive marker, got %+v", st2.Violations)
+		}
+		st3 := Explore(Options{Bound: 1000, Prefix: st2.Violations[0].Choices, Once: true}, func() { last = body() }, func(x *Execution) (string, []string) {
+			if last == "dropped" {
+				return last, []string{"dropped"}
+			}
+			return "ok", nil
+		})
+		if len(st3.Violations) != 1 {
+			t.Fatalf("replay of an arrive-mode violation did not reproduce it")
+		}
+	}
+	// programs without non-blocking operations on unbuffered channels never pay for the mode
+	_, st := outcomes(t, 1000, true, func() string {
+		ch := make(chan int)
+		w := Go("receiver", func() { Recv(ch) })
+		Send(ch, 1)
+		Join(w)
+		return "ok"
+	})
+	if st.ArriveMode {
+		t.Fatalf("arrive mode switched on without need")
+	}
+}
